@@ -178,3 +178,5 @@ def run(repo, chk):
     routing_obligations(repo, chk, "R07.3", "record")
     from .shared import build_precedence_obligations
     build_precedence_obligations(repo, chk, "R07.4", "a record shows each captured name once, with the values of the level that declared it first")
+    from .shared import call_aggregate_obligations
+    call_aggregate_obligations(repo, chk, "R07.5", ["focus", "all_captures"], "whether a selector has a focus (fork per binding) and which names a complete record needs are decided over the whole call path")
